@@ -88,6 +88,45 @@ pub fn is_dropped_macro(m: &syn::Macro) -> bool {
     let p = nospace(&m.path.to_token_stream().to_string());
     p.starts_with("log::") || p == "eprintln" || p == "println" || p == "debug_assert" || p == "debug_assert_eq" || p == "dbg"
 }
+/// D1 drops log statements; an argument that does more than read (a call that is not a known reader) is kept as a statement of its
+/// own, so that a side effect hidden in a log line stays in the verified text
+pub fn impure_log_args(m: &syn::Macro) -> Result<Vec<Expr>, String> {
+    let p = nospace(&m.path.to_token_stream().to_string());
+    if p.starts_with("debug_assert") { return Ok(vec![]); }
+    let mut pieces: Vec<TokenStream> = vec![]; let mut cur: Vec<TokenTree> = vec![];
+    for tt in m.tokens.clone() { match &tt { TokenTree::Punct(pu) if pu.as_char() == ',' || pu.as_char() == ';' => { pieces.push(cur.drain(..).collect()); } _ => cur.push(tt) } }
+    if !cur.is_empty() { pieces.push(cur.into_iter().collect()); }
+    struct V(bool);
+    impl<'a> Visit<'a> for V {
+        fn visit_expr_method_call(&mut self, m: &'a syn::ExprMethodCall) {
+            const PURE: [&str; 16] = ["len", "is_empty", "is_some", "is_none", "is_ok", "is_err", "as_ref", "as_str", "to_string", "clone", "id", "to_owned", "display", "type_id", "as_deref", "strong_count"];
+            if !PURE.contains(&m.method.to_string().as_str()) { self.0 = true; }
+            syn::visit::visit_expr_method_call(self, m);
+        }
+        fn visit_expr_call(&mut self, c: &'a syn::ExprCall) {
+            let f = nospace(&c.func.to_token_stream().to_string());
+            if !(f.contains("type_name") || f == "Some" || f == "Ok" || f == "Err") { self.0 = true; }
+            syn::visit::visit_expr_call(self, c);
+        }
+        fn visit_expr_await(&mut self, _: &'a syn::ExprAwait) { self.0 = true; }
+        fn visit_expr_macro(&mut self, _: &'a syn::ExprMacro) { self.0 = true; }
+        fn visit_expr_assign(&mut self, _: &'a syn::ExprAssign) { self.0 = true; }
+    }
+    let mut out = vec![];
+    for pc in pieces {
+        // `key = value` pairs of the structured-logging form: look at the value
+        let toks: Vec<TokenTree> = pc.clone().into_iter().collect();
+        let val: TokenStream = match toks.iter().position(|t| matches!(t, TokenTree::Punct(p) if p.as_char() == '=')) {
+            Some(i) if i > 0 && !matches!(toks.get(i + 1), Some(TokenTree::Punct(p)) if p.as_char() == '=') && !matches!(toks.get(i - 1), Some(TokenTree::Punct(_))) => toks[i + 1..].iter().cloned().collect(),
+            _ => pc.clone(),
+        };
+        match syn::parse2::<Expr>(val.clone()) {
+            Ok(e) => { let mut v = V(false); v.visit_expr(&e); if v.0 { out.push(e); } }
+            Err(_) => { if val.to_string().contains('(') { return Err(format!("log argument `{}`", nospace(&val.to_string()))); } }
+        }
+    }
+    Ok(out)
+}
 fn is_select(m: &syn::Macro) -> bool { m.path.segments.last().map(|s| s.ident == "select").unwrap_or(false) }
 fn is_panic(m: &syn::Macro) -> bool { m.path.segments.last().map(|s| matches!(s.ident.to_string().as_str(), "panic" | "unreachable" | "unimplemented" | "todo")).unwrap_or(false) }
 fn is_pin_macro(m: &syn::Macro) -> bool { m.path.segments.last().map(|s| s.ident == "pin").unwrap_or(false) }
@@ -383,8 +422,37 @@ impl<'c> Rw<'c> {
             ("cloned", 0) => Some(parse_quote!(match #recv { Some(#v) => Some(#v.clone()), None => None })),
             ("ok_or", 1) => { let a = &m.args[0]; if matches!(a, Expr::Path(_)) { Some(parse_quote!(match #recv { Some(#v) => Ok(#v), None => Err(#a) })) } else { None } }
             ("or", 1) => { let a = &m.args[0]; Some(parse_quote!(match #recv { Some(#v) => Some(#v), None => #a })) }
+            ("unwrap_or_default", 0) => Some(parse_quote!(#recv.hx_unwrap_or_default())),
+            ("flatten", 0) => Some(parse_quote!(match #recv { Some(Some(#v)) => Some(#v), _ => None })),
+            ("then_some", 1) => { let a = &m.args[0]; Some(parse_quote!(if #recv { Some(#a) } else { None })) }
+            ("then", 1) | ("or_else", 1) | ("ok_or_else", 1) | ("unwrap_or_else", 1) => {
+                // adapters over a closure without parameters: bool::then, Option::{or_else, ok_or_else, unwrap_or_else}
+                match &m.args[0] {
+                    Expr::Closure(cl) if cl.inputs.is_empty() => {
+                        if has_control_escape(&cl.body) { self.cx.err(format!("outside dialect: `return`/`?` inside an adapter closure in {}", self.fn_name)); return; }
+                        let body = &cl.body;
+                        match name.as_str() {
+                            "then" => Some(parse_quote!(if #recv { Some(#body) } else { None })),
+                            "or_else" => Some(parse_quote!(match #recv { Some(#v) => Some(#v), None => #body })),
+                            "ok_or_else" => Some(parse_quote!(match #recv { Some(#v) => Ok(#v), None => Err(#body) })),
+                            _ => Some(parse_quote!(match #recv { Some(#v) => #v, None => #body })),
+                        }
+                    }
+                    _ => None,
+                }
+            }
+            ("map_or", 2) => {
+                let d = &m.args[0];
+                match &m.args[1] {
+                    Expr::Closure(cl) => {
+                        if has_control_escape(&cl.body) { self.cx.err(format!("outside dialect: `return`/`?` inside an adapter closure in {}", self.fn_name)); return; }
+                        match closure_single_pat(cl) { Some(p) => { let body = &cl.body; Some(parse_quote!(match #recv { Some(#p) => #body, None => #d })) } None => None }
+                    }
+                    _ => None,
+                }
+            }
             ("zip", 1) => { let a = &m.args[0]; Some(parse_quote!(match (#recv, #a) { (Some(hx_a), Some(hx_b)) => Some((hx_a, hx_b)), _ => None })) }
-            ("map", 1) | ("and_then", 1) | ("filter", 1) | ("is_some_and", 1) | ("map_err", 1) => {
+            ("map", 1) | ("and_then", 1) | ("filter", 1) | ("is_some_and", 1) | ("is_none_or", 1) | ("map_err", 1) => {
                 let a = &m.args[0];
                 // the function applied to the bound value
                 let (pat, app): (syn::Pat, Option<Expr>) = match a {
@@ -409,6 +477,7 @@ impl<'c> Rw<'c> {
                     "map" => Some(parse_quote!(match #recv { Some(#pat) => Some(#app), None => None })),
                     "and_then" => Some(parse_quote!(match #recv { Some(#pat) => #app, None => None })),
                     "is_some_and" => Some(parse_quote!(match #recv { Some(#pat) => #app, None => false })),
+                    "is_none_or" => Some(parse_quote!(match #recv { Some(#pat) => #app, None => true })),
                     "map_err" => Some(parse_quote!(match #recv { Ok(hx_o) => Ok(hx_o), Err(#pat) => Err(#app) })),
                     "filter" => {
                         // Option::filter passes `&value`
@@ -427,9 +496,21 @@ impl<'c> Rw<'c> {
 impl<'c> VisitMut for Rw<'c> {
     fn visit_block_mut(&mut self, b: &mut syn::Block) {
         // D1: drop log statements and debug assertions
-        let before = b.stmts.len();
-        b.stmts.retain(|s| match s { Stmt::Macro(m) => !is_dropped_macro(&m.mac), Stmt::Expr(Expr::Macro(m), _) => !is_dropped_macro(&m.mac), _ => true });
-        for _ in b.stmts.len()..before { self.cx.fire("D1"); }
+        let mut kept0: Vec<Stmt> = vec![];
+        for st in std::mem::take(&mut b.stmts) {
+            let mac = match &st { Stmt::Macro(m) if is_dropped_macro(&m.mac) => Some(m.mac.clone()), Stmt::Expr(Expr::Macro(m), _) if is_dropped_macro(&m.mac) => Some(m.mac.clone()), _ => None };
+            match mac {
+                None => kept0.push(st),
+                Some(m) => {
+                    self.cx.fire("D1");
+                    match impure_log_args(&m) {
+                        Ok(args) => for a in args { self.cx.fire("D1x"); kept0.push(parse_quote!(let _ = #a;)); },
+                        Err(what) => self.cx.err(format!("outside dialect: {} of a dropped log statement in {} may have an effect", what, self.fn_name)),
+                    }
+                }
+            }
+        }
+        b.stmts = kept0;
         // D3 on statements
         let feats = self.cx.unit.features.clone();
         let mut kept = vec![];
@@ -457,6 +538,7 @@ impl<'c> VisitMut for Rw<'c> {
                     if let Some(sn) = src { if let Some(t) = self.local_types.get(&sn).cloned() { self.local_types.insert(pi.ident.to_string(), t); } }
                     let it = nospace(&init.expr.to_token_stream().to_string());
                     if it.starts_with("Arc::new(AtomicBool::new(") || it.starts_with("AtomicBool::new(") { self.local_types.insert(pi.ident.to_string(), "AtomicBoolV".to_string()); }
+                    if it == "true" || it == "false" { self.local_types.insert(pi.ident.to_string(), "bool".to_string()); }
                 }
                 if let syn::Pat::Type(pt) = &l.pat { // drop partially inferred annotations such as `Weak<_>`
                     if pt.ty.to_token_stream().to_string().contains('_') { l.pat = (*pt.pat).clone(); }
@@ -481,7 +563,24 @@ impl<'c> VisitMut for Rw<'c> {
             if is_select(&m.mac) { if let Some(n) = self.select_to_match(&m.mac) { *e = n; } }
             else if is_panic(&m.mac) { self.cx.fire("M1"); *e = if self.cx.unit.panic_forbidden { parse_quote!(vpanic_forbidden()) } else { parse_quote!(vpanic()) }; }
             else if is_pin_macro(&m.mac) { self.cx.fire("D4"); if let Ok(inner) = syn::parse2::<Expr>(m.mac.tokens.clone()) { *e = inner; } }
-            else if is_dropped_macro(&m.mac) { self.cx.fire("D1"); *e = parse_quote!(()); }
+            else if is_dropped_macro(&m.mac) {
+                self.cx.fire("D1");
+                match impure_log_args(&m.mac) {
+                    Ok(args) if args.is_empty() => { *e = parse_quote!(()); }
+                    Ok(args) => { self.cx.fire("D1x"); *e = parse_quote!({ #(let _ = #args;)* }); self.visit_expr_mut(e); return; }
+                    Err(what) => { self.cx.err(format!("outside dialect: {} of a dropped log statement in {} may have an effect", what, self.fn_name)); *e = parse_quote!(()); }
+                }
+            }
+            else if m.mac.path.is_ident("matches") {
+                // M2: matches!(e, pat [if guard]) by its definition
+                struct MA { e: Expr, arm: TokenStream }
+                impl syn::parse::Parse for MA { fn parse(i: syn::parse::ParseStream) -> syn::Result<Self> { let e: Expr = i.parse()?; let _: syn::Token![,] = i.parse()?; let arm: TokenStream = i.parse()?; Ok(MA { e, arm }) } }
+                match syn::parse2::<MA>(m.mac.tokens.clone()) {
+                    Ok(ma) => { let (x, arm) = (ma.e, ma.arm); let arm: TokenStream = { let mut v: Vec<TokenTree> = arm.into_iter().collect(); if matches!(v.last(), Some(TokenTree::Punct(p)) if p.as_char() == ',') { v.pop(); } v.into_iter().collect() };
+                        match syn::parse2::<Expr>(quote!(match #x { #arm => true, _ => false })) { Ok(n) => { self.cx.fire("M2"); *e = n; } Err(_) => self.cx.err(format!("outside dialect: macro `matches` in {}", self.fn_name)) } }
+                    Err(_) => self.cx.err(format!("outside dialect: macro `matches` in {}", self.fn_name)),
+                }
+            }
             else { self.cx.err(format!("outside dialect: macro `{}` in {}", nospace(&m.mac.path.to_token_stream().to_string()), self.fn_name)); }
         }
         // W1
